@@ -18,15 +18,15 @@ import common as C
 
 PID = "C01"
 DRIVER = [("C01", "TfPwaV.Model.Swap", "Swap.handle"), ("C01amp", "TfPwaV.Gen.AmpF", "AmpF.handle"), ("C01g", "TfPwaV.Gen.LorentzSLF", "LorentzSLF.handle"), ("C01h", "TfPwaV.Gen.AngleF", "AngleF.handle")]
-LEAN_TARGETS = ["TfPwaV.Props.C01", "TfPwaV.Props.C01b", "TfPwaV.Props.C01d", "TfPwaV.Props.C01e", "TfPwaV.Props.C01f", "TfPwaV.Props.C01g", "TfPwaV.Props.C01h", "TfPwaV.Props.C01i", "TfPwaV.Gen.AmpF", "TfPwaV.Gen.LorentzSLF", "TfPwaV.Gen.AngleF", "TfPwaV.Model.Swap"]
-PROP_MODULES = ["TfPwaV.Props.C01", "TfPwaV.Props.C01b", "TfPwaV.Props.C01d", "TfPwaV.Props.C01e", "TfPwaV.Props.C01f", "TfPwaV.Props.C01g", "TfPwaV.Props.C01h", "TfPwaV.Props.C01i"]
-ALL_MODULES = ["TfPwaV.Props.C01", "TfPwaV.Props.C01b", "TfPwaV.Props.C01d", "TfPwaV.Props.C01e", "TfPwaV.Props.C01f", "TfPwaV.Props.C01g", "TfPwaV.Props.C01h", "TfPwaV.Props.C01i", "TfPwaV.Proofs.AxesInd", "TfPwaV.Proofs.AxesIndVertex", "TfPwaV.Proofs.AxesIndB", "TfPwaV.Proofs.AxesIndBRoute", "TfPwaV.Proofs.AxesIndBSteps", "TfPwaV.Proofs.AxesIndBD", "TfPwaV.Proofs.AxesIndBGauge", "TfPwaV.Proofs.AxesIndBMkD", "TfPwaV.Props.C02e", "TfPwaV.Proofs.RouteRest", "TfPwaV.Proofs.RouteRestTree", "TfPwaV.Proofs.LorentzSL",
+LEAN_TARGETS = ["TfPwaV.Props.C01", "TfPwaV.Props.C01b", "TfPwaV.Props.C01d", "TfPwaV.Props.C01e", "TfPwaV.Props.C01f", "TfPwaV.Props.C01g", "TfPwaV.Props.C01h", "TfPwaV.Props.C01i", "TfPwaV.Props.C01j", "TfPwaV.Gen.AmpF", "TfPwaV.Gen.LorentzSLF", "TfPwaV.Gen.AngleF", "TfPwaV.Model.Swap"]
+PROP_MODULES = ["TfPwaV.Props.C01", "TfPwaV.Props.C01b", "TfPwaV.Props.C01d", "TfPwaV.Props.C01e", "TfPwaV.Props.C01f", "TfPwaV.Props.C01g", "TfPwaV.Props.C01h", "TfPwaV.Props.C01i", "TfPwaV.Props.C01j"]
+ALL_MODULES = ["TfPwaV.Props.C01", "TfPwaV.Props.C01b", "TfPwaV.Props.C01d", "TfPwaV.Props.C01e", "TfPwaV.Props.C01f", "TfPwaV.Props.C01g", "TfPwaV.Props.C01h", "TfPwaV.Props.C01i", "TfPwaV.Props.C01j", "TfPwaV.Proofs.AxesIndCPair", "TfPwaV.Proofs.AxesIndCPhase", "TfPwaV.Proofs.AxesIndCGauge", "TfPwaV.Props.C13", "TfPwaV.Model.LS", "TfPwaV.Proofs.AxesInd", "TfPwaV.Proofs.AxesIndVertex", "TfPwaV.Proofs.AxesIndB", "TfPwaV.Proofs.AxesIndBRoute", "TfPwaV.Proofs.AxesIndBSteps", "TfPwaV.Proofs.AxesIndBD", "TfPwaV.Proofs.AxesIndBGauge", "TfPwaV.Proofs.AxesIndBMkD", "TfPwaV.Props.C02e", "TfPwaV.Proofs.RouteRest", "TfPwaV.Proofs.RouteRestTree", "TfPwaV.Proofs.LorentzSL",
                "TfPwaV.Props.C02", "TfPwaV.Props.C02b", "TfPwaV.Props.C02c", "TfPwaV.Props.C02d", "TfPwaV.Proofs.SL2C", "TfPwaV.Proofs.Align", "TfPwaV.Proofs.AlignD", "TfPwaV.Model.Align",
                "TfPwaV.Proofs.CascadeAngle", "TfPwaV.Props.C11c", "TfPwaV.Proofs.Amp", "TfPwaV.Proofs.AmpMix", "TfPwaV.Proofs.AmpSwap", "TfPwaV.Proofs.Spinless", "TfPwaV.Proofs.LineShape", "TfPwaV.Proofs.FrameRot", "TfPwaV.Proofs.CascadeTree", "TfPwaV.Proofs.Cascade", "TfPwaV.Proofs.Angle",
                "TfPwaV.Props.C12b", "TfPwaV.Props.C12d", "TfPwaV.Proofs.DHom", "TfPwaV.Proofs.ZHom", "TfPwaV.Proofs.SU2", "TfPwaV.Model.Swap", "TfPwaV.Proofs.FrameAlg", "TfPwaV.Proofs.UnitaryMix", "TfPwaV.Props.C11", "TfPwaV.Props.C12",
                "TfPwaV.Proofs.Kin", "TfPwaV.Proofs.Wigner", "TfPwaV.Proofs.ScalarR"]
 ASSUMPTIONS = [
-    "BOOSTS / general Lorentz transformations (Props/C01g.lean, model = templates/Cascade.lean.in + Kin.lean.in + SL2C.lean.in + LorentzSL.lean.in): PROVED for every A in SL(2,C) (the common Lorentz transformation lor A: herm(lor A p) = A herm(p) A^dagger; orthochronous: lor_pos), every binary decay tree and all final momenta whose total P is time-like with positive energy, on the code's own boost branch (|beta|^2 > 1e-14, or the parent exactly at rest) for P and for its image: LorentzVector.rest_vector(P, .) IS the SL(2,C) element restM P = r^-1 Boost_z(omega(P)) r (rest_vector_is_restM); rest_vector(LP, Lp) = R rest_vector(P, p) with ONE proper rotation R = rotOf(W), W = restM(LP) A restM(P)^-1 in SU(2) (wigner_rotation, wigner_rotation_at_rest); the whole tree of nested rest-frame momenta of cal_chain_boost is rotated by R, masses equal (rest_frames_rotate); every mass, every polar angle below the top vertex, every azimuth two or more levels below the top (below_top_invariant_boost, arbitrary base axes on both sides, regular cross_unit branch) and every rapidity omega(rest_p) (rapidities_boost_invariant) are unchanged; the complete angle tree of the transformed event with base axes (z', x') equals the angle tree of the event itself with base axes (R^-1 z', R^-1 x') (boost_is_axes_change, top_vertex_boost, corotating_axes_invariant_boost). density_boost_invariant_partial (C01g): any function F of the per-chain data (angle tree with all masses + rapidities = the inputs of the amplitude tensor and of the rule-1 alignment matrices) is Lorentz invariant PROVIDED it does not depend on the base axes chosen for a FIXED event - the named hypothesis AxesIndependent. PROVED since (Props/C01h.lean, hypotheses: the code's guards for both choices of axes + an SU(2) element U relating the two top frames, FrameChange): a change of the base axes composes the top-vertex angles of every chain and both daughters with one common SU(2) element (top_angles_compose: r' U = Rotation_z(gamma) r), multiplies the top D-function by D(mirror U) on the left and diag(exp(i l gamma)) on the right (top_D_compose, 2j <= 8), and lowers exactly the next-level azimuths by the same gamma mod 2 pi, everything else below the top being equal (below_top_azimuth_shift); density_axes_independent_(model_)partial = C01b.density_rot_fixed_axes_partial with hcomp discharged. PROVED since (Props/C01i.lean, Proofs/AxesIndB.lean): SU(2) -> SO(3) is onto for frames — for ANY two right-handed orthonormal frames there is U in SU(2) with FrameChange U F F' (frame_change_exists; the coordinates along a frame are lor V for V = Rotation_z(g) Rotation_y(b) Rotation_z(a), degenerate directions included), hence AxesPair holds for some U for EVERY two choices of base axes passing the two cross_unit guards (axes_pair_exists) and the C01h statements hold with hypotheses on the guards only, ONE U for all chains (top_angles_compose_any_axes, top_D_compose_any_axes, below_top_azimuth_shift_any_axes, density_axes_independent_any_axes_partial); the vertex-level half of hB on SU(2) ELEMENTS, 2j <= 8: the D-matrix is a function of the element Rz(a)Ry(b)Rz(g) (DConj_zero, DConj_of_element), lowering the azimuth element of a vertex by gamma on the same sheet multiplies row m of its D-function by exp(-i m gamma), on the other sheet (angles equal mod 2 pi, not mod 4 pi) by (-1)^(2j) exp(-i m gamma) (vertex_phase_element, vertex_phase_other_sheet, mkD_vertex_phase on the executable amplitude model), and the column phase of the top D-function cancels the row phases of the two daughters' D-functions for every helicity configuration (mkD_top_gamma, top_and_vertex_phases_cancel); the D-matrices are a unitary representation of SU(2) elements (D_is_representation: DE multiplicative, Rotation_z(t) -> diag exp(i m t), -1 -> (-1)^(2j)); on the model of cal_helicity_angle's step record (templates/RouteRest.lean.in stepTree, any depth, the code's guards): the route matrices b_matrix[f] r_matrix[f] satisfy M' U = W M with W = Rotation_z(gamma) for a direct daughter of the top particle and W = +-1 for every deeper particle (route_axes_change = the former validated-only alignment_compose; below_top_steps_shift, rotZ_of_cos_sin: the two sheets), hence the alignment element changes to W_ref R W_k^-1 (alignment_element_change: U drops out) and the alignment D-function D_matrix_conj(get_euler_angle(R)) = C02.codeD by codeD(W_k^-1) on its row index and codeD(W_ref) on its column index (aligned_D_axes_change, alignment_axes_change_model, row_factor_of_routeW: exp(-i m gamma), 1 or (-1)^(2j)); on the executable amplitude model (templates/Amp.lean.in, any list of chains of any topology and depth, reference chains included): if the D-functions of every chain change by one unitary on the top rows, a column factor on the top D-function, row factors on every lower vertex, row and column factors on every alignment D-function, and these factors multiply on every helicity configuration the einsum visits to ONE unit-modulus number Xi(ext) common to all chains, the density is unchanged (model_density_axes_independent_ext_partial; with unitary column mixing for chains aligned once: model_density_axes_independent_partial / _stored_partial) — and the same with hypotheses on SU(2) ELEMENTS only, 2j <= 8, D-functions = AmpR.mkD at the primed angles (model_density_axes_independent_elements_ext_partial, _elements_partial; vertex_element_of_shift links the model's level-2 azimuth to the element hypothesis). NOT proved (= what is left of AxesIndependent for the real density): the single NUMERICAL link hcancel — that the factors proved above do multiply to one common Xi(ext): needs Rotation_z(gamma_1) Rotation_z(gamma_2) = +-1 for the two daughters of the top vertex (validated on every run), the sign bookkeeping (-1)^(2 j_R) = product of (-1)^(2 j_f) over the finals below R (angular-momentum conservation of the decay card), the equality of the reference chain's own vertex phase with the other chains' alignment column phase, and a builder function ATree -> AmpR.Chain (the chains of the amplitude model are fed from the real data dictionary, not from the cascade model). In the words of the former link hB: that the index structure of get_amp turns the gamma-shift of the next-level azimuths and the change of the alignment elements (r_matrix' U = Rotation_z(gamma) r_matrix for direct daughters of the top, +- r_matrix below) into ONE common unitary on the final helicities, incl. the 4 pi range of gamma for half-integer spins (C01e.model_density_rot_invariant supplies the unitary-mixing half). Validated on every run (harness/c01_axes.py, 1e-9): all proved relations on the real cal_helicity_angle at two explicit random choices of base axes, the r_matrix relation, and the real density at the two choices of axes. Not covered by F: the rule-2 alignment reference (align_ref = center_mass / identical_particles), which uses rest_vector(p_top, p_i) of deeper final particles; the guard branch 0 < |beta|^2 <= 1e-14 of LorentzVector.boost (not a Lorentz transformation); the cross_unit fallback. ROTATIONS with co-rotating axes stay proved in Props/C01b.lean. Validated on the implementation on every run (harness/c01_wigner.py, 1e-9): lor A p vs a numpy oracle; lor (restM P) q vs the real rest_vector; W vs the numpy oracle (algebraic boosts) and its SU(2) residuals; EVERY rest_p of the real cal_chain_boost on the transformed event vs lor W of the rest_p on the event (all chains / decays / particles, parents moving with beta 0.2..0.9 and at rest, transformations up to beta = 0.97 incl. pure rotations); below-top angles and rapidities of the real cal_helicity_angle with the default axes; all angles with pulled-back axes. Also validated: the density itself over a zoo of decay structures, and the invariance of every mass, |q|^2 and polar helicity angle below the top vertex in the data dictionary",
+    "BOOSTS / general Lorentz transformations (Props/C01g.lean, model = templates/Cascade.lean.in + Kin.lean.in + SL2C.lean.in + LorentzSL.lean.in): PROVED for every A in SL(2,C) (the common Lorentz transformation lor A: herm(lor A p) = A herm(p) A^dagger; orthochronous: lor_pos), every binary decay tree and all final momenta whose total P is time-like with positive energy, on the code's own boost branch (|beta|^2 > 1e-14, or the parent exactly at rest) for P and for its image: LorentzVector.rest_vector(P, .) IS the SL(2,C) element restM P = r^-1 Boost_z(omega(P)) r (rest_vector_is_restM); rest_vector(LP, Lp) = R rest_vector(P, p) with ONE proper rotation R = rotOf(W), W = restM(LP) A restM(P)^-1 in SU(2) (wigner_rotation, wigner_rotation_at_rest); the whole tree of nested rest-frame momenta of cal_chain_boost is rotated by R, masses equal (rest_frames_rotate); every mass, every polar angle below the top vertex, every azimuth two or more levels below the top (below_top_invariant_boost, arbitrary base axes on both sides, regular cross_unit branch) and every rapidity omega(rest_p) (rapidities_boost_invariant) are unchanged; the complete angle tree of the transformed event with base axes (z', x') equals the angle tree of the event itself with base axes (R^-1 z', R^-1 x') (boost_is_axes_change, top_vertex_boost, corotating_axes_invariant_boost). density_boost_invariant_partial (C01g): any function F of the per-chain data (angle tree with all masses + rapidities = the inputs of the amplitude tensor and of the rule-1 alignment matrices) is Lorentz invariant PROVIDED it does not depend on the base axes chosen for a FIXED event - the named hypothesis AxesIndependent. PROVED since (Props/C01h.lean, hypotheses: the code's guards for both choices of axes + an SU(2) element U relating the two top frames, FrameChange): a change of the base axes composes the top-vertex angles of every chain and both daughters with one common SU(2) element (top_angles_compose: r' U = Rotation_z(gamma) r), multiplies the top D-function by D(mirror U) on the left and diag(exp(i l gamma)) on the right (top_D_compose, 2j <= 8), and lowers exactly the next-level azimuths by the same gamma mod 2 pi, everything else below the top being equal (below_top_azimuth_shift); density_axes_independent_(model_)partial = C01b.density_rot_fixed_axes_partial with hcomp discharged. PROVED since (Props/C01i.lean, Proofs/AxesIndB.lean): SU(2) -> SO(3) is onto for frames — for ANY two right-handed orthonormal frames there is U in SU(2) with FrameChange U F F' (frame_change_exists; the coordinates along a frame are lor V for V = Rotation_z(g) Rotation_y(b) Rotation_z(a), degenerate directions included), hence AxesPair holds for some U for EVERY two choices of base axes passing the two cross_unit guards (axes_pair_exists) and the C01h statements hold with hypotheses on the guards only, ONE U for all chains (top_angles_compose_any_axes, top_D_compose_any_axes, below_top_azimuth_shift_any_axes, density_axes_independent_any_axes_partial); the vertex-level half of hB on SU(2) ELEMENTS, 2j <= 8: the D-matrix is a function of the element Rz(a)Ry(b)Rz(g) (DConj_zero, DConj_of_element), lowering the azimuth element of a vertex by gamma on the same sheet multiplies row m of its D-function by exp(-i m gamma), on the other sheet (angles equal mod 2 pi, not mod 4 pi) by (-1)^(2j) exp(-i m gamma) (vertex_phase_element, vertex_phase_other_sheet, mkD_vertex_phase on the executable amplitude model), and the column phase of the top D-function cancels the row phases of the two daughters' D-functions for every helicity configuration (mkD_top_gamma, top_and_vertex_phases_cancel); the D-matrices are a unitary representation of SU(2) elements (D_is_representation: DE multiplicative, Rotation_z(t) -> diag exp(i m t), -1 -> (-1)^(2j)); on the model of cal_helicity_angle's step record (templates/RouteRest.lean.in stepTree, any depth, the code's guards): the route matrices b_matrix[f] r_matrix[f] satisfy M' U = W M with W = Rotation_z(gamma) for a direct daughter of the top particle and W = +-1 for every deeper particle (route_axes_change = the former validated-only alignment_compose; below_top_steps_shift, rotZ_of_cos_sin: the two sheets), hence the alignment element changes to W_ref R W_k^-1 (alignment_element_change: U drops out) and the alignment D-function D_matrix_conj(get_euler_angle(R)) = C02.codeD by codeD(W_k^-1) on its row index and codeD(W_ref) on its column index (aligned_D_axes_change, alignment_axes_change_model, row_factor_of_routeW: exp(-i m gamma), 1 or (-1)^(2j)); on the executable amplitude model (templates/Amp.lean.in, any list of chains of any topology and depth, reference chains included): if the D-functions of every chain change by one unitary on the top rows, a column factor on the top D-function, row factors on every lower vertex, row and column factors on every alignment D-function, and these factors multiply on every helicity configuration the einsum visits to ONE unit-modulus number Xi(ext) common to all chains, the density is unchanged (model_density_axes_independent_ext_partial; with unitary column mixing for chains aligned once: model_density_axes_independent_partial / _stored_partial) — and the same with hypotheses on SU(2) ELEMENTS only, 2j <= 8, D-functions = AmpR.mkD at the primed angles (model_density_axes_independent_elements_ext_partial, _elements_partial; vertex_element_of_shift links the model's level-2 azimuth to the element hypothesis). PROVED since (Props/C01j.lean): hcancel itself for every chain with the index structure of a decay tree of any depth whose vertices conserve angular momentum mod 1 (CTree.spinOK - checked on every generated card by harness/c01_spin.py, enforced by the loader: an odd vertex has no (l,s) coupling), from Rotation_z(gamma_2) = Rotation_z(-gamma_1) EXACTLY (top_gammas_opposite, from alpha_2 = alpha_1 - pi, beta_2 = pi - beta_1 as real numbers for back-to-back daughters: vertex_second_daughter_exact), the sign rule (spin_sign_rule), the identification of the route sign with the vertex's sheet (routes_carry_vertex_sheet) and reference element = own element in the reference chain; model_density_axes_independent_tree_partial has no numerical hypothesis left (hypotheses: relations between SU(2) elements per particle id, each a theorem about the model of cal_helicity_angle; hcancel of C01i was restated: only configurations with h = ext off the contracted indices, column phase continued outside the Dfun_delta_v2 table). ASSUMED there: the daughters of every vertex are back to back in the mother's rest frame (hbb: vect r_2 = -vect r_1, momentum conservation; exact for the momenta cal_chain_boost computes up to rounding) and 2j <= 8. NOT proved: the simultaneous instantiation of these per-id hypotheses for all chains of a DecayGroup from the cascade model. FORMERLY (kept for the record, superseded by the previous sentence): the single NUMERICAL link hcancel — that the factors proved above do multiply to one common Xi(ext): needs Rotation_z(gamma_1) Rotation_z(gamma_2) = +-1 for the two daughters of the top vertex (validated on every run), the sign bookkeeping (-1)^(2 j_R) = product of (-1)^(2 j_f) over the finals below R (angular-momentum conservation of the decay card), the equality of the reference chain's own vertex phase with the other chains' alignment column phase, and a builder function ATree -> AmpR.Chain (the chains of the amplitude model are fed from the real data dictionary, not from the cascade model). In the words of the former link hB: that the index structure of get_amp turns the gamma-shift of the next-level azimuths and the change of the alignment elements (r_matrix' U = Rotation_z(gamma) r_matrix for direct daughters of the top, +- r_matrix below) into ONE common unitary on the final helicities, incl. the 4 pi range of gamma for half-integer spins (C01e.model_density_rot_invariant supplies the unitary-mixing half). Validated on every run (harness/c01_axes.py, 1e-9): all proved relations on the real cal_helicity_angle at two explicit random choices of base axes, the r_matrix relation, and the real density at the two choices of axes. Not covered by F: the rule-2 alignment reference (align_ref = center_mass / identical_particles), which uses rest_vector(p_top, p_i) of deeper final particles; the guard branch 0 < |beta|^2 <= 1e-14 of LorentzVector.boost (not a Lorentz transformation); the cross_unit fallback. ROTATIONS with co-rotating axes stay proved in Props/C01b.lean. Validated on the implementation on every run (harness/c01_wigner.py, 1e-9): lor A p vs a numpy oracle; lor (restM P) q vs the real rest_vector; W vs the numpy oracle (algebraic boosts) and its SU(2) residuals; EVERY rest_p of the real cal_chain_boost on the transformed event vs lor W of the rest_p on the event (all chains / decays / particles, parents moving with beta 0.2..0.9 and at rest, transformations up to beta = 0.97 incl. pure rotations); below-top angles and rapidities of the real cal_helicity_angle with the default axes; all angles with pulled-back axes. Also validated: the density itself over a zoo of decay structures, and the invariance of every mass, |q|^2 and polar helicity angle below the top vertex in the data dictionary",
     "amplitude tensor: templates/Amp.lean.in models amp/core.py (HelicityDecay._cal_cg_matrix / get_barrier_factor2 / get_ls_amp / get_helicity_amp incl. the allow_cc reversal H[..., ::-1, ::-1] on charge <= 0 events / get_amp, dfun.D_matrix_conj + Dfun_delta_v2, Particle/ParticleBW/ParticleOne.get_amp, DecayChain.get_amp, DecayGroup.get_amp, get_amp2 (id_swap terms: sign = Swap.fixedFactor of the permutation of every group of identical fermions, transposition of the exchanged final-state axes), get_amp3 (cp_swap term: frac, transposition of the conjugate pairs, reversal of ALL helicity axes), sum_amp) with DEFAULT decay options only (has_barrier_factor, has_bprime, has_ql, no barrier_factor_norm / below_threshold / force_min_l / helicity_inner_full / ls_selector, no is_cp total (get_cp_amp_total), no polarisation); exchanges are modelled for groups of TWO identical particles (for three the dictionary trick of get_swap_transpose is not modelled); its inputs (masses, |q|2, ang, aligned_angle of the event's own, the id_swap and the cp_swap data dictionaries, charge_conjugation, g_ls(), total(), mass, width, bw_l, the C attribute of self-conjugate finals) are READ from the real data dictionary / model objects, and the mapping chain -> data-dictionary entry (get_chains_map, rename_data_dict, standard_topology, cp_charge_group) is the library's own, so cal_angle and the bookkeeping are outside this model (C11/C02/C14). Tie to the code: Float instance vs the real tensors per helicity component (DecayChain.get_amp, DecayGroup.get_amp, get_amp3) and vs sum_amp, 1e-9 of the largest component per (chain, event) block (measured 1e-15). Python-float |q0|2 (a decay none of whose three particles carries a tensor mass: top / final particles, ParticleOne): on the unrepaired tree tf.cast inside Bprime_q2 rounds it to float32 (3e-8 relative in the barrier factor; finding, patch fixes/C01-fix_q0_float64.diff, demonstration fixes/C01-repro_q0_float32.py); the per-vertex rounding flag of the model follows what the harness OBSERVES on the real Bprime_q2 (barrier factor at q2 == q02 exactly one or not), so the correspondence is quiet on both trees",
     "Props/C01d, C01e, C01f: theorems are about the R instance of the same template text. model_density_rot_invariant (C01e) is the full unitary-mixing statement: one rotation composed in SU(2) onto the top angles of every chain (left) and one rotation per final particle p in M composed onto the alignment angles of every chain (right), 2j <= 8 (abstract unitaries: no spin bound); structural hypothesis Chain.AlignedOnce: a chain takes part in the mixing of p through exactly one alignment D-function whose unprimed index is contracted - the shape DecayChain.get_amp produces when the data carry aligned_angle for p; the reference chain of p (no aligned_angle, no D-function inserted) is covered only with p not in M (index not mixed), which is the case for rotations and boosts where the relative alignment rotations do not change. That cal_angle's angles DO change by such common rotations is not proved (first assumption). model_exchange_invariant (C01f) is for ONE pair of identical particles and takes as given that the id_swap data of the exchanged event are the data of the event (momenta exchanged twice). The reduction to Spinless.helAmp is Props/C04c (spinless_reduction, registered with C04)",
     "tolerances: density unchanged to 1e-8 relative (floor 1e-3 x median density of the batch); events on which an alignment angle beta of a final particle with spin is within 1e-6 of 0 or pi are compared with 1e-5 (SU2M.get_euler_angle takes acos of cos(beta): absolute noise sqrt(eps) ~ 1.5e-8 in beta there, measured up to 5e-8 in the density); masses / |q|^2 to 1e-9 relative, cos(beta) to 1e-9 absolute",
@@ -568,6 +568,9 @@ def correspond(ctx, res):
     # Props/C01h (change of the base axes for a fixed event): the theorems' objects on the real cal_helicity_angle at explicit base axes
     import c01_axes
     n_swap += c01_axes.correspond_axes(ctx, res, [b for b, _ in runs if b.st["name"] in want]) or 0
+    # Props/C01j (ingredient (b)): every generated card satisfies CTree.spinOK; the real loader offers no coupling to a parity-violating vertex
+    import c01_spin
+    n_swap += c01_spin.correspond_spin(ctx, res, [b for b, _ in runs]) or 0
     n_cmp, worst_m, worst_b, first = 0, 0.0, 0.0, None
     nbad = 0
     for b, run in runs:
@@ -739,7 +742,7 @@ def replay(ctx, payload):
 
 
 MANIFEST = {
-    "text": "Lean theorems (all finite helicity index sets, all complex chain tensors, all real angles): mixing the parent and final-state helicity indices of EVERY chain with the same unitary matrices leaves the helicity-summed density unchanged and it is non-negative; the code's conjugated D-matrix exp(i m alpha) d^j_{mn}(beta) exp(i n gamma) (dfun.D_matrix_conj) built from the exact small-d table model is a unitary matrix for every 2j <= 8 and all real angles, hence a common rotation acting by D^J on the parent index leaves the density unchanged (density_rot_invariant); every invariant mass of every subsystem and every break-up momentum is unchanged by a common boost (regular branch) or rotation/reflection; d^j_{-m,-n} = (-1)^{m-n} d^j_{mn} for 2j <= 8 (kernel-checked polynomial identity, all real beta); for a three-body decay in the parent rest frame spatial inversion equals the rotation by pi about the decay-plane normal; the identical-particle sum over a finite group with a sign character is an eigenvector of every exchange so its helicity-summed square is exchange invariant; the repaired get_swap_factor is the permutation sign for up to four identical fermions, the unrepaired one is refuted on a 3-cycle. On the Lean model of cal_chain_boost/cal_helicity_angle (every binary decay tree, regular branch of cross_unit) a common rotation leaves every mass and every angle below the top vertex unchanged, and every angle when the base axes co-rotate; with fixed laboratory axes the first D-matrix of every chain is left-multiplied by one common D^J(R) whenever the top-vertex rotations compose in SU(2) (D_hom_su2), which gives invariance of the density from two named hypotheses (density_rot_fixed_axes_partial). Boosts (Props/C01g.lean): for EVERY element A of SL(2,C) acting as the common Lorentz transformation (proved orthochronous), every binary decay tree and all final momenta with a massive total momentum on the code's own boost branch (|beta|^2 > 1e-14 or exactly at rest, before and after): LorentzVector.rest_vector(P, .) is the SL(2,C) element restM P = r^-1 Boost_z(omega(P)) r built from the code's SU2M matrices (rest_vector_is_restM); the parent-rest-frame momenta computed from the transformed event are R times those of the event for ONE proper rotation R, the image of the SU(2) element W = restM(LP) A restM(P)^-1 (wigner_rotation, wigner_rotation_at_rest); the whole tree of nested rest-frame momenta of cal_chain_boost is rotated by R (rest_frames_rotate); every mass (lorentz_invariants_sl2c: any subsystem, no guard), every polar angle below the top vertex, every azimuth two or more levels below the top and every rapidity are unchanged for arbitrary base axes before and after (below_top_invariant_boost, rapidities_boost_invariant); the top-vertex angles are the angles of R n (top_vertex_boost) and the complete angle tree of the transformed event with base axes (z', x') equals that of the event itself with base axes (R^-1 z', R^-1 x') (boost_is_axes_change); hence any function of the per-chain data of cal_angle (angle trees, masses, rapidities) that does not depend on the base axes of a fixed event (named hypothesis AxesIndependent) is invariant under every Lorentz transformation (density_boost_invariant_partial in C01g; the older C01.density_boost_invariant_partial keeps the abstract unitary-mixing form). What is still not proved is AxesIndependent for the real density (Euler-angle composition at the top vertex and the induced common rotation of the alignment elements - no boost is left in it); it and the full statement are validated on the implementation: density finite, >= 0 and unchanged (1e-8) under per-event random rotations, boosts up to beta = 0.99, axis-aligned and tiny boosts, rotation-boost-rotation, spatial inversion (3-body / parity-conserving), identical-particle exchange, over hand-designed and seeded random decay cards built by ConfigLoader(dict). Amplitude tensor (Props/C01d, about the real-number instance of the executable model templates/Amp.lean.in of amp/core.py, whose Float instance is compared with the real DecayChain.get_amp / DecayGroup.get_amp / DecayGroup.get_amp3 tensors per helicity component and with sum_amp on every run, including cards with identical fermions / identical vector bosons (id_swap terms), a charge-conjugate pair (cp_swap term) and charge -1 events with allow_cc): for every chain (any depth, any spins, any couplings and line-shape values) and all top-vertex angles the model amplitude equals sum_mu D^{J*}_{lambda_A mu}(alpha,beta,gamma) T[mu, finals] with D the unitary matrix DConj of the exact small-d tables and a remainder T independent of lambda_A and of the top angles (amp_is_chain_tensor); for every list of chains, if the top-vertex D-matrix of every chain is left-multiplied by one common unitary (D^J(R) whenever the top-vertex rotations compose with R in SU(2); composed angles always exist) the helicity-summed density of the model is unchanged (model_density_top_mix, model_density_top_unitary, model_density_top_rot_invariant; 2j <= 8 for the top particle); for every list of chains, if for every final particle p of a list M the alignment D-function of EVERY chain is right-multiplied by one common unitary V_p and the other alignment D-functions are unchanged, the density of the model is unchanged (model_density_final_mix: no bound on the spins, final index lists = full helicity ranges, every chain aligned exactly once for p), together with one common unitary on the top index (model_density_mix_all), and with hypotheses about ANGLES: one rotation composed in SU(2) onto the top angles of every chain from the left and one rotation per final particle composed onto its alignment angles in every chain from the right, all spins 2j <= 8 (model_density_rot_invariant, Props/C01e: the full statement; composed angles always exist); identical particles (Props/C01f): the model of get_amp2 on the exchanged event is epsilon times the model of get_amp2 on the event with the two helicity indices transposed (amp2_exchange_covariant), hence the symmetrised model density sum_amp is the same on the event and on the exchanged event for every list of chains, epsilon = +-1, every helicity list of the pair and arbitrary other finals (model_exchange_invariant; the nested helicity sums are re-indexed by sumOverR_swap); the chain amplitude is linear in `total` and in the helicity couplings of the top vertex, the helicity coupling is sum_ls g_ls bf_ls cg[ls][lambda_b][lambda_c] (linear in g_ls), the group amplitude is the sum over chains, and the model density is >= 0. Base axes (Props/C01h.lean, model = templates/Cascade.lean.in + Angle.lean.in + the SU2M matrices): for ONE event (the output of cal_chain_boost for every binary decay tree, all momenta) and ANY two admissible choices of base axes (z, x), (z', x') (arbitrary vectors passing the code's cross_unit guards) whose orthonormal top frames are related by an SU(2) element U (FrameChange: coords' = lor U coords): for BOTH daughters of the top vertex the passive vertex rotations r = Rotation_y(beta) Rotation_z(alpha) built from the angles angle_zx_z_getx extracts (with the code's alpha range shifts) satisfy r' U = Rotation_z(gamma) r EXACTLY in SU(2) with one real gamma per daughter (top_angles_compose; from su2_fix_z: the SU(2) stabiliser of a momentum along z is {Rotation_z}); in active form Rz(alpha')Ry(beta')Rz(0) = mirror(U) Rz(alpha)Ry(beta)Rz(gamma) with the SAME mirror(U) for every chain (top_angles_compose_active), hence for 2j <= 8 the top D-function of every chain is D(alpha',beta',0) = D(euler(mirror U)) D(alpha,beta,0) diag(exp(i l gamma)) (top_D_compose, via D_hom_su2 and euler_roundtrip); the complete angle tree below the top vertex computed with (z', x') differs from the one computed with (z, x) ONLY by a lowering of the two azimuths of the daughter's own vertex by that same gamma (mod 2 pi): all masses, all polar angles, everything two or more levels down literally equal (below_top_azimuth_shift / AzShift, hypotheses = the code's guards only); density_axes_independent_partial / density_axes_independent_model_partial: C01b.density_rot_fixed_axes_partial with its link hcomp DISCHARGED for the angles of the model (any number of chains, parent spin 2j <= 8), remaining named link hB (the remainder of chain k changes by the phase exp(-i l gamma_k) up to a common unitary on the final helicities). Props/C01i.lean: for ALL pairs of right-handed orthonormal frames there is U in SU(2) with FrameChange U F F' (frame_change_exists; frame_is_su2: the coordinates along any frame are the Lorentz map of an element Rotation_z Rotation_y Rotation_z), so for ALL base axes passing the code's two cross_unit guards AxesPair holds for some U (axes_pair_exists) and the statements above hold with hypotheses on the guards only and ONE U for all chains and events sharing the axes (top_angles_compose_any_axes, top_D_compose_any_axes, below_top_azimuth_shift_any_axes, density_axes_independent_any_axes_partial: only hB left); for all spins 2j <= 8 and all angles the D-matrix depends on the Euler angles only through the SU(2) element (DConj_zero, DConj_of_element), a vertex whose azimuth ELEMENT is Rotation_z(a) Rotation_z(-gamma) has row m of its D-function multiplied by exp(-i m gamma) and on the other sheet of the double cover by (-1)^(2j) exp(-i m gamma) (vertex_phase_element, vertex_phase_other_sheet; mkD_vertex_phase, mkD_top_gamma on the executable get_D_matrix_lambda model incl. padding zeros), and for every helicity configuration at the top vertex the column phase of the top D-function times the row phases of the two daughters' D-functions is one (top_and_vertex_phases_cancel); D_matrix_conj is a unitary representation of SU(2) ELEMENTS for 2j <= 8 (D_is_representation); for every event, every decay tree of any depth and every decay path the route matrix b_matrix[f] r_matrix[f] of the model of cal_helicity_angle satisfies M' U = W M with W = Rotation_z(gamma) (direct daughter of the top, gamma of its vertex equation) or W = +-1 (deeper) (route_axes_change, RouteW), so the alignment element becomes W_ref R W_k^-1 (alignment_element_change) and its D-function changes by codeD(W_k^-1) on the row and codeD(W_ref) on the column index (aligned_D_axes_change, alignment_axes_change_model, row_factor_of_routeW); assembly on the executable amplitude model for ANY list of chains (any topology / depth, reference chains included): one unitary on the top rows, a column factor on the top D-function, row factors on the lower vertices, row and column factors on the alignment D-functions whose product is ONE unit-modulus number Xi(ext) common to all chains on every helicity configuration the einsum visits (hcancel) leave the density sum_amp unchanged (model_density_axes_independent_ext_partial / _partial / _stored_partial), also with hypotheses on SU(2) elements only and D-functions = mkD at the primed angles, 2j <= 8 (model_density_axes_independent_elements_ext_partial / _elements_partial; vertex_element_of_shift). The remaining named link is hcancel, a statement about phases only.",
-    "note": "Executable Lean model of the amplitude tensor: templates/Amp.lean.in (general binary chains and spins; CG matrix, barrier factors, helicity couplings, D_matrix_conj + Dfun_delta_v2 gather, BWR/BW/one propagators, alignment D-functions, einsum over inner helicities, sum over chains, helicity-summed density; default decay options; identical-particle and cp terms, allow_cc), fed with the masses, |q|2, ang and aligned_angle of the real data dictionary and the parameter values of the real model objects (harness/c01_amp.py: 6 decay cards, spins 0..2, parity conserving and violating vertices, 2-3 interfering chains of different topology, 3- and 4-body, BWR/BW/one; agreement 1e-15, tolerance 1e-9 of the largest component). get_amp2 / get_amp3 / the allow_cc branch are in the model (groupAmp2, groupAmp3, density3, mkHrev) and compared on 4 more cards (harness/c01_amp.py correspond_amp3; exchanges of pairs only). Proved on the model since the last revision: unitary mixing of the FINAL-state indices through the alignment D-functions (Props/C01e; the reference chain of a particle, which has no alignment D-function, only with that particle unmixed), exchange invariance for one pair (Props/C01f), reduction to Spinless.helAmp (Props/C04c, with C04). Finding on the unchanged tree, not reported as a violation (3e-8 relative, below every tolerance of the property): a Python-float |q0|2 is rounded to float32 inside Bprime_q2 - fixes/C01-fix_q0_float64.diff (one line, baseline tests green), fixes/C01-repro_q0_float32.py; the model's rounding flag follows the observed behaviour of the real Bprime_q2. get_swap_factor: Model/Swap.lean, legacy and repaired variants, the harness observes which one the tree has. Wigner rotation (Props/C01g.lean, Proofs/LorentzSL.lean, templates/LorentzSL.lean.in): proved on the model of cal_chain_boost / cal_helicity_angle for every SL(2,C) element; tied to the code by harness/c01_wigner.py (every rest_p of the real cal_chain_boost on an event and on its image: p' = R p with the R the theorem predicts, 1e-9, measured 1e-12; restM vs the real rest_vector 2e-16; below-top angles and pulled-back-axes angles 1e-11). Base axes (Props/C01h.lean, Proofs/AxesInd.lean, Proofs/AxesIndVertex.lean): proved on the model — Euler-angle composition at the top vertex with one common SU(2) element for all chains, the resulting left/right multiplication of the top D-function, and that the next-level azimuths are lowered by the same gamma while nothing else below the top vertex depends on the base axes; tied to the code by harness/c01_axes.py (real cal_helicity_angle at two explicit random choices of base_z/base_x per event: top angles vs the Lean angle_zx_z_getx at the same axes, r' U r^-1 diagonal, level-2 azimuth shift = gamma, deeper angles equal, real D_matrix_conj composition with the real get_euler_angle of mirror(U) for 2j = 1..4; all 1e-9, measured 2e-15). Props/C01i.lean + Proofs/AxesIndB.lean (builder C01I): surjectivity SU(2) -> SO(3) for frames is PROVED (frame_change_exists, axes_pair_exists: FrameChange / AxesPair are no longer hypotheses; the *_any_axes theorems and density_axes_independent_any_axes_partial assume the code's guards and hB only), and the vertex-level half of hB is proved on SU(2) elements (DConj_of_element, vertex_phase_element, vertex_phase_other_sheet with the fermion sign (-1)^(2j), mkD_vertex_phase, mkD_top_gamma, top_and_vertex_phases_cancel); harness/c01_axes.py compares on every run the SU(2) element built as in frame_lift with an independent scipy lift (equal up to sign) and the REAL level-2 D_matrix_conj rows with (+-1)^(2j) exp(-i m gamma) times the rows at the first axes (2j = 1..4; both sheets occur and are counted). Further in Props/C01i.lean (Proofs/AxesIndBRoute, AxesIndBSteps, AxesIndBD, AxesIndBGauge, AxesIndBMkD): route_axes_change (the r_matrix relation that was validated only is now a theorem about the model's step record, any depth), the alignment D-function under a change of axes, and the assembly theorems on the executable amplitude model whose only open hypothesis is hcancel (the product of the proved row/column phases is one common unit-modulus number); harness/c01_axes.py additionally validates Rotation_z(gamma_1) Rotation_z(gamma_2) = +-1 for the two daughters of every top vertex (an ingredient of hcancel). Validated, not proved (= what is left of AxesIndependent): hcancel, i.e. of the former link hB: the index structure of DecayChain.get_amp that turns the common lowering of the next-level azimuths by gamma_k, together with the change r_matrix' U = Rotation_z(gamma) r_matrix (direct daughters of the top) / +- r_matrix (deeper) of the alignment elements, into one common unitary on the final helicities — for half-integer spins including the 4 pi bookkeeping of gamma_k (fermion-number parity at every vertex). Both are checked on the real code on every run by harness/c01_axes.py: the r_matrix relation for every final particle of every chain, and the DENSITY of the real amplitude model evaluated through the library's own pipeline with cal_helicity_angle forced to two different explicit choices of base axes (agreement 2e-15). correspond = invariance of masses, |q|^2 and polar helicity angles of the real data dictionary; search = the metamorphic property on the real density. Events where an alignment beta of a spinning final particle is 0 or pi are compared with 1e-5 (acos noise of get_euler_angle). Known findings on the unchanged tree (reported through search with stable keys frame:<transformation>:<class>): identical_particles declared together with any spinning final particle (the exchanged pass uses other spin frames: O(1) frame dependence), three identical fermions (get_swap_factor is not the permutation sign), align_ref=center_mass with events not in the centre-of-mass frame (lab momenta used for the reference frames); patches fixes/fix_C01_alignment_reference.diff and fixes/fix_C01_swap_factor_permutation_sign.diff make all of them vanish.",
+    "text": "Lean theorems (all finite helicity index sets, all complex chain tensors, all real angles): mixing the parent and final-state helicity indices of EVERY chain with the same unitary matrices leaves the helicity-summed density unchanged and it is non-negative; the code's conjugated D-matrix exp(i m alpha) d^j_{mn}(beta) exp(i n gamma) (dfun.D_matrix_conj) built from the exact small-d table model is a unitary matrix for every 2j <= 8 and all real angles, hence a common rotation acting by D^J on the parent index leaves the density unchanged (density_rot_invariant); every invariant mass of every subsystem and every break-up momentum is unchanged by a common boost (regular branch) or rotation/reflection; d^j_{-m,-n} = (-1)^{m-n} d^j_{mn} for 2j <= 8 (kernel-checked polynomial identity, all real beta); for a three-body decay in the parent rest frame spatial inversion equals the rotation by pi about the decay-plane normal; the identical-particle sum over a finite group with a sign character is an eigenvector of every exchange so its helicity-summed square is exchange invariant; the repaired get_swap_factor is the permutation sign for up to four identical fermions, the unrepaired one is refuted on a 3-cycle. On the Lean model of cal_chain_boost/cal_helicity_angle (every binary decay tree, regular branch of cross_unit) a common rotation leaves every mass and every angle below the top vertex unchanged, and every angle when the base axes co-rotate; with fixed laboratory axes the first D-matrix of every chain is left-multiplied by one common D^J(R) whenever the top-vertex rotations compose in SU(2) (D_hom_su2), which gives invariance of the density from two named hypotheses (density_rot_fixed_axes_partial). Boosts (Props/C01g.lean): for EVERY element A of SL(2,C) acting as the common Lorentz transformation (proved orthochronous), every binary decay tree and all final momenta with a massive total momentum on the code's own boost branch (|beta|^2 > 1e-14 or exactly at rest, before and after): LorentzVector.rest_vector(P, .) is the SL(2,C) element restM P = r^-1 Boost_z(omega(P)) r built from the code's SU2M matrices (rest_vector_is_restM); the parent-rest-frame momenta computed from the transformed event are R times those of the event for ONE proper rotation R, the image of the SU(2) element W = restM(LP) A restM(P)^-1 (wigner_rotation, wigner_rotation_at_rest); the whole tree of nested rest-frame momenta of cal_chain_boost is rotated by R (rest_frames_rotate); every mass (lorentz_invariants_sl2c: any subsystem, no guard), every polar angle below the top vertex, every azimuth two or more levels below the top and every rapidity are unchanged for arbitrary base axes before and after (below_top_invariant_boost, rapidities_boost_invariant); the top-vertex angles are the angles of R n (top_vertex_boost) and the complete angle tree of the transformed event with base axes (z', x') equals that of the event itself with base axes (R^-1 z', R^-1 x') (boost_is_axes_change); hence any function of the per-chain data of cal_angle (angle trees, masses, rapidities) that does not depend on the base axes of a fixed event (named hypothesis AxesIndependent) is invariant under every Lorentz transformation (density_boost_invariant_partial in C01g; the older C01.density_boost_invariant_partial keeps the abstract unitary-mixing form). What is still not proved is AxesIndependent for the real density (Euler-angle composition at the top vertex and the induced common rotation of the alignment elements - no boost is left in it); it and the full statement are validated on the implementation: density finite, >= 0 and unchanged (1e-8) under per-event random rotations, boosts up to beta = 0.99, axis-aligned and tiny boosts, rotation-boost-rotation, spatial inversion (3-body / parity-conserving), identical-particle exchange, over hand-designed and seeded random decay cards built by ConfigLoader(dict). Amplitude tensor (Props/C01d, about the real-number instance of the executable model templates/Amp.lean.in of amp/core.py, whose Float instance is compared with the real DecayChain.get_amp / DecayGroup.get_amp / DecayGroup.get_amp3 tensors per helicity component and with sum_amp on every run, including cards with identical fermions / identical vector bosons (id_swap terms), a charge-conjugate pair (cp_swap term) and charge -1 events with allow_cc): for every chain (any depth, any spins, any couplings and line-shape values) and all top-vertex angles the model amplitude equals sum_mu D^{J*}_{lambda_A mu}(alpha,beta,gamma) T[mu, finals] with D the unitary matrix DConj of the exact small-d tables and a remainder T independent of lambda_A and of the top angles (amp_is_chain_tensor); for every list of chains, if the top-vertex D-matrix of every chain is left-multiplied by one common unitary (D^J(R) whenever the top-vertex rotations compose with R in SU(2); composed angles always exist) the helicity-summed density of the model is unchanged (model_density_top_mix, model_density_top_unitary, model_density_top_rot_invariant; 2j <= 8 for the top particle); for every list of chains, if for every final particle p of a list M the alignment D-function of EVERY chain is right-multiplied by one common unitary V_p and the other alignment D-functions are unchanged, the density of the model is unchanged (model_density_final_mix: no bound on the spins, final index lists = full helicity ranges, every chain aligned exactly once for p), together with one common unitary on the top index (model_density_mix_all), and with hypotheses about ANGLES: one rotation composed in SU(2) onto the top angles of every chain from the left and one rotation per final particle composed onto its alignment angles in every chain from the right, all spins 2j <= 8 (model_density_rot_invariant, Props/C01e: the full statement; composed angles always exist); identical particles (Props/C01f): the model of get_amp2 on the exchanged event is epsilon times the model of get_amp2 on the event with the two helicity indices transposed (amp2_exchange_covariant), hence the symmetrised model density sum_amp is the same on the event and on the exchanged event for every list of chains, epsilon = +-1, every helicity list of the pair and arbitrary other finals (model_exchange_invariant; the nested helicity sums are re-indexed by sumOverR_swap); the chain amplitude is linear in `total` and in the helicity couplings of the top vertex, the helicity coupling is sum_ls g_ls bf_ls cg[ls][lambda_b][lambda_c] (linear in g_ls), the group amplitude is the sum over chains, and the model density is >= 0. Base axes (Props/C01h.lean, model = templates/Cascade.lean.in + Angle.lean.in + the SU2M matrices): for ONE event (the output of cal_chain_boost for every binary decay tree, all momenta) and ANY two admissible choices of base axes (z, x), (z', x') (arbitrary vectors passing the code's cross_unit guards) whose orthonormal top frames are related by an SU(2) element U (FrameChange: coords' = lor U coords): for BOTH daughters of the top vertex the passive vertex rotations r = Rotation_y(beta) Rotation_z(alpha) built from the angles angle_zx_z_getx extracts (with the code's alpha range shifts) satisfy r' U = Rotation_z(gamma) r EXACTLY in SU(2) with one real gamma per daughter (top_angles_compose; from su2_fix_z: the SU(2) stabiliser of a momentum along z is {Rotation_z}); in active form Rz(alpha')Ry(beta')Rz(0) = mirror(U) Rz(alpha)Ry(beta)Rz(gamma) with the SAME mirror(U) for every chain (top_angles_compose_active), hence for 2j <= 8 the top D-function of every chain is D(alpha',beta',0) = D(euler(mirror U)) D(alpha,beta,0) diag(exp(i l gamma)) (top_D_compose, via D_hom_su2 and euler_roundtrip); the complete angle tree below the top vertex computed with (z', x') differs from the one computed with (z, x) ONLY by a lowering of the two azimuths of the daughter's own vertex by that same gamma (mod 2 pi): all masses, all polar angles, everything two or more levels down literally equal (below_top_azimuth_shift / AzShift, hypotheses = the code's guards only); density_axes_independent_partial / density_axes_independent_model_partial: C01b.density_rot_fixed_axes_partial with its link hcomp DISCHARGED for the angles of the model (any number of chains, parent spin 2j <= 8), remaining named link hB (the remainder of chain k changes by the phase exp(-i l gamma_k) up to a common unitary on the final helicities). Props/C01i.lean: for ALL pairs of right-handed orthonormal frames there is U in SU(2) with FrameChange U F F' (frame_change_exists; frame_is_su2: the coordinates along any frame are the Lorentz map of an element Rotation_z Rotation_y Rotation_z), so for ALL base axes passing the code's two cross_unit guards AxesPair holds for some U (axes_pair_exists) and the statements above hold with hypotheses on the guards only and ONE U for all chains and events sharing the axes (top_angles_compose_any_axes, top_D_compose_any_axes, below_top_azimuth_shift_any_axes, density_axes_independent_any_axes_partial: only hB left); for all spins 2j <= 8 and all angles the D-matrix depends on the Euler angles only through the SU(2) element (DConj_zero, DConj_of_element), a vertex whose azimuth ELEMENT is Rotation_z(a) Rotation_z(-gamma) has row m of its D-function multiplied by exp(-i m gamma) and on the other sheet of the double cover by (-1)^(2j) exp(-i m gamma) (vertex_phase_element, vertex_phase_other_sheet; mkD_vertex_phase, mkD_top_gamma on the executable get_D_matrix_lambda model incl. padding zeros), and for every helicity configuration at the top vertex the column phase of the top D-function times the row phases of the two daughters' D-functions is one (top_and_vertex_phases_cancel); D_matrix_conj is a unitary representation of SU(2) ELEMENTS for 2j <= 8 (D_is_representation); for every event, every decay tree of any depth and every decay path the route matrix b_matrix[f] r_matrix[f] of the model of cal_helicity_angle satisfies M' U = W M with W = Rotation_z(gamma) (direct daughter of the top, gamma of its vertex equation) or W = +-1 (deeper) (route_axes_change, RouteW), so the alignment element becomes W_ref R W_k^-1 (alignment_element_change) and its D-function changes by codeD(W_k^-1) on the row and codeD(W_ref) on the column index (aligned_D_axes_change, alignment_axes_change_model, row_factor_of_routeW); assembly on the executable amplitude model for ANY list of chains (any topology / depth, reference chains included): one unitary on the top rows, a column factor on the top D-function, row factors on the lower vertices, row and column factors on the alignment D-functions whose product is ONE unit-modulus number Xi(ext) common to all chains on every helicity configuration the einsum visits (hcancel) leave the density sum_amp unchanged (model_density_axes_independent_ext_partial / _partial / _stored_partial), also with hypotheses on SU(2) elements only and D-functions = mkD at the primed angles, 2j <= 8 (model_density_axes_independent_elements_ext_partial / _elements_partial; vertex_element_of_shift). Props/C01j.lean (builder C01J) DISCHARGES hcancel: (a) on the model of cal_helicity_angle, at EVERY vertex whose daughters are back to back (momentum conservation in the mother's rest frame) the stored angles of outs[1] are (alpha_1 - pi, pi - beta_1) as REAL numbers, not mod 2 pi - the role of the range-shift biases -pi / -2pi (vertex_second_daughter_exact, top_second_daughter_exact; hypotheses = the code's guards) - hence for ALL gamma_1, gamma_2 solving the two vertex equations of the top vertex Rotation_z(gamma_2) = Rotation_z(-gamma_1) and Rotation_z(gamma_1) Rotation_z(gamma_2) = 1 EXACTLY in SU(2), no sign (top_gammas_opposite), and at a lower vertex both daughters' azimuth elements are lowered on the SAME sheet, which is the sign +-1 of the route matrices of ALL final particles below it (sheet_exists, second_daughter_same_sheet, lower_vertex_sheet, routes_carry_vertex_sheet: M' U = (signM e) M with e the sheet of the vertex's own D-function - route_axes_change with the sign identified); (b) CTree.spinOK (decidable: 2j_core = 2j_b + 2j_c mod 2 at every vertex of a decay tree with ids and doubled spins), spin_sign_rule / fermion_sign_rule: (-1)^(2j_R) = product of (-1)^(2j_f) over the finals below R for EVERY tree (structural induction), loader_enforces_spinOK: a vertex with 2(j_a+j_b+j_c) odd has C13.lsList = [] (all parities / p_break / C settings, from ls_mem_iff); (c) chain_phases_cancel = hcancel PROVED for every AmpR.Chain whose index structure is that of a decay tree of ANY depth (ChainOfTree: lower vertices <-> decaying particles, alignment D-functions <-> aligned finals, contracted indices; mkChain builds such a chain from a tree, mkChain_shape): column phase of the top vertex x row phases of all lower vertices x row and column phases of all alignment D-functions = product over ALL final particles f of exp(i ext_f phi_f / 2) with Rotation_z(phi_f) the reference element of f - the reference chain's own vertex phase IS the other chains' alignment column phase; (d) model_density_axes_independent_tree_partial: the density AmpR.densityG of ANY list of such chains (reference chains included, 2j <= 8, D-functions = AmpR.mkD at the primed angles) equals the density at the first axes with NO hcancel hypothesis - the hypotheses left are relations between SU(2) ELEMENTS (vertex equation, Rotation_z(gamma_2) = Rotation_z(-gamma_1), SideOKE: -gamma on the side's sheet for the daughter's own vertex / unit below / -gamma for an aligned direct daughter / the sheet sign for deeper finals, href: own element = reference element in the reference chain), each of which is a theorem of C01h/C01i/C01j about the model of cal_helicity_angle. Two defects of the STATEMENT of hcancel in C01i (unsatisfiable for real chains, not wrong) are repaired: it was asked for configurations with |lambda_b - lambda_c| > J (padding zero of Dfun_delta_v2; colPhaseX continues the phase there) and for configurations h differing from the external helicities on the reference chain's own finals (AmpR.densityG_gauge_ext2 carries h = ext off the contracted indices). The remaining named gap is bookkeeping, not mathematics: the walk that instantiates the per-id angles (Theta, theta_a, phi) and the trees of ALL chains of a DecayGroup from the angle trees CascadeR.helicityAngle / stepTree simultaneously, and hence density_boost_invariant for the real pipeline (C01g.boost_is_axes_change reduces the boost clause to this).",
+    "note": "Executable Lean model of the amplitude tensor: templates/Amp.lean.in (general binary chains and spins; CG matrix, barrier factors, helicity couplings, D_matrix_conj + Dfun_delta_v2 gather, BWR/BW/one propagators, alignment D-functions, einsum over inner helicities, sum over chains, helicity-summed density; default decay options; identical-particle and cp terms, allow_cc), fed with the masses, |q|2, ang and aligned_angle of the real data dictionary and the parameter values of the real model objects (harness/c01_amp.py: 6 decay cards, spins 0..2, parity conserving and violating vertices, 2-3 interfering chains of different topology, 3- and 4-body, BWR/BW/one; agreement 1e-15, tolerance 1e-9 of the largest component). get_amp2 / get_amp3 / the allow_cc branch are in the model (groupAmp2, groupAmp3, density3, mkHrev) and compared on 4 more cards (harness/c01_amp.py correspond_amp3; exchanges of pairs only). Proved on the model since the last revision: unitary mixing of the FINAL-state indices through the alignment D-functions (Props/C01e; the reference chain of a particle, which has no alignment D-function, only with that particle unmixed), exchange invariance for one pair (Props/C01f), reduction to Spinless.helAmp (Props/C04c, with C04). Finding on the unchanged tree, not reported as a violation (3e-8 relative, below every tolerance of the property): a Python-float |q0|2 is rounded to float32 inside Bprime_q2 - fixes/C01-fix_q0_float64.diff (one line, baseline tests green), fixes/C01-repro_q0_float32.py; the model's rounding flag follows the observed behaviour of the real Bprime_q2. get_swap_factor: Model/Swap.lean, legacy and repaired variants, the harness observes which one the tree has. Wigner rotation (Props/C01g.lean, Proofs/LorentzSL.lean, templates/LorentzSL.lean.in): proved on the model of cal_chain_boost / cal_helicity_angle for every SL(2,C) element; tied to the code by harness/c01_wigner.py (every rest_p of the real cal_chain_boost on an event and on its image: p' = R p with the R the theorem predicts, 1e-9, measured 1e-12; restM vs the real rest_vector 2e-16; below-top angles and pulled-back-axes angles 1e-11). Base axes (Props/C01h.lean, Proofs/AxesInd.lean, Proofs/AxesIndVertex.lean): proved on the model — Euler-angle composition at the top vertex with one common SU(2) element for all chains, the resulting left/right multiplication of the top D-function, and that the next-level azimuths are lowered by the same gamma while nothing else below the top vertex depends on the base axes; tied to the code by harness/c01_axes.py (real cal_helicity_angle at two explicit random choices of base_z/base_x per event: top angles vs the Lean angle_zx_z_getx at the same axes, r' U r^-1 diagonal, level-2 azimuth shift = gamma, deeper angles equal, real D_matrix_conj composition with the real get_euler_angle of mirror(U) for 2j = 1..4; all 1e-9, measured 2e-15). Props/C01i.lean + Proofs/AxesIndB.lean (builder C01I): surjectivity SU(2) -> SO(3) for frames is PROVED (frame_change_exists, axes_pair_exists: FrameChange / AxesPair are no longer hypotheses; the *_any_axes theorems and density_axes_independent_any_axes_partial assume the code's guards and hB only), and the vertex-level half of hB is proved on SU(2) elements (DConj_of_element, vertex_phase_element, vertex_phase_other_sheet with the fermion sign (-1)^(2j), mkD_vertex_phase, mkD_top_gamma, top_and_vertex_phases_cancel); harness/c01_axes.py compares on every run the SU(2) element built as in frame_lift with an independent scipy lift (equal up to sign) and the REAL level-2 D_matrix_conj rows with (+-1)^(2j) exp(-i m gamma) times the rows at the first axes (2j = 1..4; both sheets occur and are counted). Further in Props/C01i.lean (Proofs/AxesIndBRoute, AxesIndBSteps, AxesIndBD, AxesIndBGauge, AxesIndBMkD): route_axes_change (the r_matrix relation that was validated only is now a theorem about the model's step record, any depth), the alignment D-function under a change of axes, and the assembly theorems on the executable amplitude model whose only open hypothesis is hcancel (the product of the proved row/column phases is one common unit-modulus number); Props/C01j.lean + Proofs/AxesIndCPair, AxesIndCPhase, AxesIndCGauge (builder C01J): hcancel is PROVED for chains with the index structure of a decay tree with spinOK (chain_phases_cancel; tree_phases_cancel / sign_rule by structural induction) and the assembly theorem model_density_axes_independent_tree_partial has hypotheses on SU(2) elements only; tied to the code on every run by harness/c01_axes.py - the REAL cal_helicity_angle at two explicit choices of axes gives Rotation_z(gamma_1) Rotation_z(gamma_2) = +1 (not only +-1; measured 3e-15), alpha_2 = alpha_1 - pi and beta_2 = pi - beta_1 at every vertex of every chain (8e-15), and the sign of r_matrix' U r_matrix^-1 of every deeper final particle equals the sheet (-1)^turns of the level-2 azimuth on its route (both sheets occur; 1e-15) - and by harness/c01_spin.py: every decay of every generated card satisfies spinOK, all chains of a group have the same finals, and the real HelicityDecay.get_ls_list() is empty for all spin triples with 2(j_a+j_b+j_c) odd (2j <= 4 quick / 6 thorough) and non-empty otherwise (p_break). Validated, not proved (= what is left of AxesIndependent): the simultaneous instantiation of the element hypotheses for all chains of a DecayGroup from the cascade model (ids <-> tree positions), i.e. of the former link hB: the index structure of DecayChain.get_amp that turns the common lowering of the next-level azimuths by gamma_k, together with the change r_matrix' U = Rotation_z(gamma) r_matrix (direct daughters of the top) / +- r_matrix (deeper) of the alignment elements, into one common unitary on the final helicities — for half-integer spins including the 4 pi bookkeeping of gamma_k (fermion-number parity at every vertex). Both are checked on the real code on every run by harness/c01_axes.py: the r_matrix relation for every final particle of every chain, and the DENSITY of the real amplitude model evaluated through the library's own pipeline with cal_helicity_angle forced to two different explicit choices of base axes (agreement 2e-15). correspond = invariance of masses, |q|^2 and polar helicity angles of the real data dictionary; search = the metamorphic property on the real density. Events where an alignment beta of a spinning final particle is 0 or pi are compared with 1e-5 (acos noise of get_euler_angle). Known findings on the unchanged tree (reported through search with stable keys frame:<transformation>:<class>): identical_particles declared together with any spinning final particle (the exchanged pass uses other spin frames: O(1) frame dependence), three identical fermions (get_swap_factor is not the permutation sign), align_ref=center_mass with events not in the centre-of-mass frame (lab momenta used for the reference frames); patches fixes/fix_C01_alignment_reference.diff and fixes/fix_C01_swap_factor_permutation_sign.diff make all of them vanish.",
     "technique": "Lean 4 proof of the algebraic skeleton (Mathlib matrices over C, kernel-decided polynomial identities), of theorems about an executable model of the amplitude tensor tied to amp/core.py by a per-helicity-component differential check, and of SU(2)/SL(2,C) theorems about the model of cal_angle (Wigner rotation, change of base axes) tied to the code by differential checks at explicit transformations / base axes + metamorphic search on the implementation",
 }
